@@ -32,17 +32,19 @@ fail, and the generated file then does not compile (the proof obligation breaks)
 """
 import re, sys
 
-CONSTS = {"FRAME_MIN_SIZE": "c_frame_min_size"}
+CONSTS = {"FRAME_MIN_SIZE": "c_frame_min_size", "FRAME_OVERHEAD": "c_frame_overhead"}
+NUMERIC_TYPES = {"u8", "u16", "u32", "u64", "usize", "Duration"}
 ENUMS = {"HeartbeatState::Expired": 1, "HeartbeatState::StillRunning": 0}
 EFFECT_OBJECTS = {"timer"}
 # which arguments of an effect call are numbers (durations) and therefore part of what is proved
 EFFECT_NUMERIC_ARGS = {("timer", "set_timeout"): [0]}
-MACROS_IGNORED = {"trace", "debug", "warn", "info"}
+MACROS_IGNORED = {"trace", "debug", "warn", "info", "assert", "debug_assert"}   # logging, and panics (not part of the value)
 CALLS = {
     "u16::min": ("N.min", 2), "u32::min": ("N.min", 2), "u64::min": ("N.min", 2),
     "u16::max": ("N.max", 2), "u32::max": ("N.max", 2),
     "u16::from": (None, 1), "u32::from": (None, 1), "u64::from": (None, 1), "usize::from": (None, 1),
     "u16::max_value": ("65535", 0), "u32::max_value": ("4294967295", 0), "u8::max_value": ("255", 0),
+    "usize::max_value": ("18446744073709551615", 0), "u64::max_value": ("18446744073709551615", 0),
     "Duration::from_millis": (None, 1),
 }
 BINOPS = {"==": "=?", "<": "<?", "<=": "<=?", "&&": "&&", "||": "||"}
@@ -71,6 +73,20 @@ def tokenize(src):
 
 
 def find_fn(src, name):
+    if "." in name:
+        # Type.fn: the fn inside `impl Type {` (or `impl<..> Type<..> {`)
+        ty, name = name.split(".", 1)
+        m = re.search(r"\bimpl(?:<[^>]*>)?\s+%s\b[^{]*\{" % re.escape(ty), src)
+        if not m:
+            raise Fail("impl %s not found" % ty)
+        depth, j = 1, m.end()
+        while depth:
+            if src[j] == "{":
+                depth += 1
+            elif src[j] == "}":
+                depth -= 1
+            j += 1
+        src = src[m.end():j]
     m = re.search(r"\bfn\s+%s\s*(<[^>]*>)?\s*\(" % re.escape(name), src)
     if not m:
         raise Fail("fn %s not found" % name)
@@ -90,6 +106,7 @@ def find_fn(src, name):
 class P:
     def __init__(self, toks):
         self.t, self.i = toks, 0
+        self.nonnumeric = set()
 
     def peek(self, k=0):
         return self.t[self.i + k] if self.i + k < len(self.t) else None
@@ -113,10 +130,15 @@ class P:
             if self.peek() == "mut":
                 self.eat()
             p = self.eat()
+            ty = None
             if self.peek() == ":":
                 self.eat()
+                start = self.i
                 self.skip_type([",", ")"])
+                ty = "".join(self.t[start:self.i])
             params.append(p)
+            if ty is not None and ty not in NUMERIC_TYPES and p != "self":
+                self.nonnumeric.add(p)
             if self.peek() == ",":
                 self.eat()
         self.eat(")")
@@ -202,6 +224,13 @@ class P:
                     tail = e
                 else:
                     raise Fail("if/else used as a statement")
+            elif re.match(r"[A-Za-z_]", t or "") and self.peek(1) in ("-", "+") and self.peek(2) == "=":
+                x = self.eat()
+                op = self.eat()
+                self.eat("=")
+                e = self.expr()
+                self.eat(";")
+                stmts.append(("assign", x, ("arith", op, ("var", x), e)))
             elif re.match(r"[A-Za-z_]", t or "") and self.peek(1) == "=":
                 x = self.eat()
                 self.eat("=")
@@ -349,6 +378,7 @@ class Gen:
         self.local_fns = {}
         self.effects = []
         self.wrap = None
+        self.nonnumeric = set()
 
     def var(self, base, field):
         if (base, field) not in self.fields:
@@ -390,7 +420,8 @@ class Gen:
                 return args[0]
             raise Fail("call of %s is outside the subset" % name)
         if k == "struct":
-            return '(RsOk "%s" [%s])' % (x[1], "; ".join('("%s", %s)' % (f, self.e(v)) for f, v in x[2]))
+            fs = [(f, v) for f, v in x[2] if not (v[0] == "var" and v[1] in self.nonnumeric)]
+            return '(RsOk "%s" [%s])' % (x[1], "; ".join('("%s", %s)' % (f, self.e(v)) for f, v in fs))
         if k == "method" and x[1][0] == "field" and x[1][1] == ("var", "self") and not x[3]:
             # an observation of the state: self.last.elapsed()
             return self.var("self", "%s_%s" % (x[1][2], x[2]))
@@ -453,9 +484,13 @@ class Gen:
 
 
 def translate(src, name, prefix="gen_"):
-    ast = P(tokenize(find_fn(src, name))).fn()
+    parser = P(tokenize(find_fn(src, name)))
+    ast = parser.fn()
     _, fname, params, body = ast
+    fname = name.replace(".", "_")
     g = Gen()
+    g.nonnumeric = parser.nonnumeric
+    params = [p for p in params if p not in parser.nonnumeric]
     defs = []
     hoisted = [s for s in body[1] if s[0] == "fn"]
     rest = [s for s in body[1] if s[0] != "fn"]
@@ -473,6 +508,7 @@ def translate(src, name, prefix="gen_"):
     # the variables the effect arguments mention are in scope)
     probe = Gen()
     probe.local_fns = dict(g.local_fns)
+    probe.nonnumeric = parser.nonnumeric
     ptext = probe.stmts(rest, body[2])
     if "RsOk" not in ptext and "RsErr" not in ptext:
         g.wrap = fname
@@ -506,6 +542,6 @@ if __name__ == "__main__":
             out.append("(* ---- %s :: %s ---- *)\n" % (path, n) + translate(open(path).read(), n))
         except (Fail, OSError) as ex:
             ok = False
-            out.append("(* TRANSLATION FAILED for %s: %s *)\nDefinition gen_%s : rs_result := translation_failed." % (n, ex, n))
+            out.append("(* TRANSLATION FAILED for %s: %s *)\nDefinition gen_%s : rs_result := translation_failed." % (n, ex, n.replace(".", "_")))
     print("\n\n".join(out))
     sys.exit(0 if ok else 3)
